@@ -36,6 +36,17 @@ GenesisFails(r) ==
        (IF accepted /\ DupLists(g) = {} /\ (o.export # "ok" \/ NormGSet(o.exported) # GDefaults(g))
         THEN {"C17:roundtrip:export"} ELSE {})
   \cup (IF accepted /\ GValidate(g) /\ NormState(o.state) # GInit(g, ledger) THEN {"C17:roundtrip:init"} ELSE {})
+  \cup \* what genesis lists is what the chain starts with: the same mismatch seen from the properties that rely on it
+       (IF accepted /\ GValidate(g)
+        THEN LET a == NormState(o.state)
+                 b == GInit(g, ledger) IN
+                  (IF a.used # b.used THEN {"C02:genesis:used-nonces"} ELSE {})
+             \cup (IF <<a.attesters, a.threshold>> # <<b.attesters, b.threshold>> THEN {"C01:genesis:attesters", "C13:genesis:attesters"} ELSE {})
+             \cup (IF <<a.owner, a.attMgr, a.pauser, a.tokCtl, a.pending>> # <<b.owner, b.attMgr, b.pauser, b.tokCtl, b.pending>> THEN {"C11:genesis:roles"} ELSE {})
+             \cup (IF <<a.pausedBM, a.pausedSR>> # <<b.pausedBM, b.pausedSR>> THEN {"C12:genesis:flags"} ELSE {})
+             \cup (IF a.nextNonce # b.nextNonce THEN {"C07:genesis:next-nonce"} ELSE {})
+             \cup (IF <<a.pairs, a.msgrs, a.limits, a.attesters, a.used>> # <<b.pairs, b.msgrs, b.limits, b.attesters, b.used>> THEN {"C19:genesis:registries"} ELSE {})
+        ELSE {})
 
 StateFields == {"owner", "pending", "attMgr", "pauser", "tokCtl", "attesters", "threshold", "pausedBM", "pausedSR",
                 "maxBody", "nextNonce", "used", "pairs", "msgrs", "limits"}
